@@ -142,3 +142,102 @@ func funcsOfPkg(r *engine.Run, rel string) []*ssa.Function {
 	}
 	return out
 }
+
+// paramRole finds a parameter by its source name and, when the name is not
+// there (a renamed parameter), by the role's type and position, so that a
+// rename does not unhinge a rule.
+func paramRole(f *ssa.Function, name string) ssa.Value {
+	if f == nil {
+		return nil
+	}
+	for _, p := range f.Params {
+		if p.Name() == name {
+			return p
+		}
+	}
+	params := f.Params
+	if f.Signature.Recv() != nil && len(params) > 0 {
+		params = params[1:]
+	}
+	isNamedT := func(t types.Type, n string) bool {
+		nm, ok := t.(*types.Named)
+		return ok && nm.Obj().Name() == n
+	}
+	var matches []ssa.Value
+	pick := func(pred func(types.Type) bool) {
+		matches = nil
+		for _, p := range params {
+			if pred(p.Type()) {
+				matches = append(matches, p)
+			}
+		}
+	}
+	first := func() ssa.Value {
+		if len(matches) > 0 {
+			return matches[0]
+		}
+		return nil
+	}
+	last := func() ssa.Value {
+		if len(matches) > 0 {
+			return matches[len(matches)-1]
+		}
+		return nil
+	}
+	isBytes := func(t types.Type) bool {
+		if isNamedT(t, "Path") {
+			return true
+		}
+		if s, ok := t.(*types.Slice); ok {
+			b, ok := s.Elem().(*types.Basic)
+			return ok && b.Kind() == types.Byte
+		}
+		return false
+	}
+	switch name {
+	case "node":
+		pick(func(t types.Type) bool { return isNamedT(t, "Node") })
+		return first()
+	case "value":
+		pick(func(t types.Type) bool { return isNamedT(t, "Node") })
+		if len(matches) > 1 {
+			return last()
+		}
+		return nil
+	case "block":
+		pick(func(t types.Type) bool { b, ok := t.(*types.Basic); return ok && b.Kind() == types.Uint64 })
+		return first()
+	case "prefix":
+		pick(isBytes)
+		return first()
+	case "deleteChan", "createdChan":
+		pick(func(t types.Type) bool { _, ok := t.Underlying().(*types.Chan); return ok })
+		if name == "deleteChan" {
+			return first()
+		}
+		if len(matches) > 1 {
+			return matches[1]
+		}
+		return nil
+	case "newRoot", "startRoot":
+		pick(func(t types.Type) bool { return isNamedT(t, "Key") })
+		if name == "newRoot" {
+			return first()
+		}
+		if len(matches) > 1 {
+			return last()
+		}
+		return nil
+	case "ind":
+		pick(func(t types.Type) bool {
+			p, ok := t.(*types.Pointer)
+			if !ok {
+				return false
+			}
+			b, ok := p.Elem().(*types.Basic)
+			return ok && b.Kind() == types.Int
+		})
+		return first()
+	}
+	return nil
+}
